@@ -7,10 +7,14 @@ package main
 import (
 	"context"
 	"crypto/sha256"
+	"crypto/x509"
 	"encoding/hex"
 	"encoding/json"
+	"encoding/pem"
 	"errors"
 	"fmt"
+	"os"
+	"path/filepath"
 	"sort"
 	"strings"
 	"sync"
@@ -20,6 +24,7 @@ import (
 	revresult "github.com/notaryproject/notation-core-go/revocation/result"
 	"github.com/notaryproject/notation-core-go/signature"
 	"github.com/notaryproject/notation-go"
+	"github.com/notaryproject/notation-go/dir"
 	"github.com/notaryproject/notation-go/plugin"
 	"github.com/notaryproject/notation-go/verifier"
 	"github.com/notaryproject/notation-go/verifier/trustpolicy"
@@ -212,6 +217,9 @@ func buildAndVerify(vc vcase) VObs {
 		}
 	}
 	fx := newVFixture(in, scheme, vc)
+	if fx.store.cleanup != nil {
+		defer fx.store.cleanup()
+	}
 	fx.payloadSalt = vc.sigMut
 	env := fx.envelope(vc)
 	if fx.scheme == signature.SigningSchemeX509SigningAuthority {
@@ -560,6 +568,49 @@ var critAttrKeys = []string{critAttrKey, "io.cncf.notary.verificationPluginConfi
 
 const pluginName = "verifplug"
 
+// onDisk renders store (t, name) in a real trust-store directory: loadable with the given root (usable), or in one of the
+// states in which a named store cannot be loaded (and must not confer trust although the trusted root is within reach)
+func (m *mockTrustStore) onDisk(t truststore.Type, name string, usable bool, root *x509.Certificate, salt int) {
+	top, err := os.MkdirTemp(*flagScratch, "tsfs")
+	must(err)
+	m.cleanup = func() { os.RemoveAll(top) }
+	m.real = truststore.NewX509TrustStore(dir.NewSysFS(top))
+	m.realKeys = map[storeKey]bool{{t, name}: true}
+	pemOf := func(c *x509.Certificate) []byte {
+		return pem.EncodeToMemory(&pem.Block{Type: "CERTIFICATE", Bytes: c.Raw})
+	}
+	d := filepath.Join(top, "truststore", "x509", string(t), name)
+	must(os.MkdirAll(filepath.Dir(d), 0755))
+	elsewhere := filepath.Join(top, "elsewhere")
+	must(os.MkdirAll(elsewhere, 0755))
+	must(os.WriteFile(filepath.Join(elsewhere, "root.pem"), pemOf(root), 0644))
+	if usable {
+		must(os.MkdirAll(d, 0755))
+		must(os.WriteFile(filepath.Join(d, []string{"root.pem", "root.crt", "root"}[salt%3]), pemOf(root), 0644))
+		return
+	}
+	switch salt % 7 {
+	case 0: // absent
+	case 1: // a link to a directory that holds the root
+		must(os.Symlink(elsewhere, d))
+	case 2: // a regular file (the root itself)
+		must(os.WriteFile(d, pemOf(root), 0644))
+	case 3: // empty
+		must(os.MkdirAll(d, 0755))
+	case 4: // the root next to a sub-directory
+		must(os.MkdirAll(filepath.Join(d, "old"), 0755))
+		must(os.WriteFile(filepath.Join(d, "root.pem"), pemOf(root), 0644))
+	case 5: // the root next to a file that is no certificate
+		must(os.MkdirAll(d, 0755))
+		must(os.WriteFile(filepath.Join(d, "root.pem"), pemOf(root), 0644))
+		must(os.WriteFile(filepath.Join(d, "notes.txt"), []byte("not a certificate\n"), 0644))
+	case 6: // the root next to a linked certificate file
+		must(os.MkdirAll(d, 0755))
+		must(os.WriteFile(filepath.Join(d, "a-root.pem"), pemOf(root), 0644))
+		must(os.Symlink(filepath.Join(elsewhere, "root.pem"), filepath.Join(d, "b-linked.pem")))
+	}
+}
+
 func caStoreType(s signature.SigningScheme) truststore.Type {
 	if s == signature.SigningSchemeX509SigningAuthority {
 		return truststore.TypeSigningAuthority
@@ -623,6 +674,12 @@ func newVFixture(in VIn, scheme signature.SigningScheme, vc vcase) *vfixture {
 		setupStores(fx, in.Stores)
 	} else {
 		fx.trustStores = append(fx.trustStores, string(st)+":s1")
+		// a third of the cases answer from a real trust-store directory (the library's own file-system store): the same facts,
+		// rendered on disk
+		onDisk := vc.sigMut%3 == 2 && in.Anchor != "notFound"
+		if onDisk {
+			fx.store.onDisk(st, "s1", in.Anchor == "found", fx.chain.Root(), vc.sigMut/3)
+		}
 		switch in.Anchor {
 		case "found":
 			fx.store.put(st, "s1", fx.chain.Root())
